@@ -51,6 +51,17 @@ struct OriginDisplacementFitsIn;
 
 template <typename FromRep, typename ToRep>
 struct IntermediateRep;
+
+// Shift a quantity by an origin displacement.  A displacement of exactly `ZERO` must leave the value
+// untouched: computing `x + 0` would, e.g., turn a floating point `-0.0` into `+0.0`.
+template <typename Q>
+constexpr Q add_origin_displacement(Q q, Zero) {
+    return q;
+}
+template <typename Q, typename D>
+constexpr auto add_origin_displacement(Q q, D d) {
+    return q + d;
+}
 }  // namespace detail
 
 // QuantityPoint implementation and API elaboration.
@@ -149,8 +160,10 @@ class QuantityPoint {
         // `rep_cast` is needed because if these are integral types, their difference might become a
         // different type due to integer promotion.
         return rep_cast<Rep>(
-                   x_ + rep_cast<Rep>(
-                            OriginDisplacement<AssociatedUnitForPointsT<NewUnit>, Unit>::value()))
+                   detail::add_origin_displacement(
+                       x_,
+                       rep_cast<Rep>(
+                           OriginDisplacement<AssociatedUnitForPointsT<NewUnit>, Unit>::value())))
             .in(associated_unit_for_points(u));
     }
 
